@@ -42,7 +42,7 @@ func dotName(n string) string {
 		n = "start"
 	}
 	if gram.IsLit(n) {
-		n = "'" + string(gram.LitChar(n)) + "' "
+		n = "'" + string(gram.LitRune(n)) + "' "
 	}
 	for _, c := range []string{"<", ">", "{", "}", "|", "\""} {
 		n = strings.ReplaceAll(n, c, "\\"+c)
